@@ -34,7 +34,7 @@ def finding_explains(f, prop, field, shapes, pid):
 
 
 def volumes(cx, base_prog, base_env):
-    k = 1 if cx.quick() else int(os.environ.get('VERIF_THOROUGH_K', '12'))   # thorough: 12x the quick program volume (override for soaks)
+    k = 1 if cx.quick() else int(os.environ.get('VERIF_THOROUGH_K', '30'))   # thorough: 30x the quick program volume (override for soaks)
     return base_prog * k, base_env * (1 if cx.quick() else 2)
 
 
